@@ -120,6 +120,11 @@ fn add(acc: &mut Acc, g: &G) {
             acc.members[0] += 1;
         }
         G::MultiPoint(v) => v.iter().for_each(|c| add(acc, &G::Point(*c))),
+        // a Line / Rect / Triangle without extent is one location: it is one of "the points" (weight 1; only for line strings
+        // and polygons with repeated coordinates is the weight left open, see `degenerate_points`)
+        G::Line(a, b) if a == b => add(acc, &G::Point(*a)),
+        G::Rect(a, b) if a == b => add(acc, &G::Point(*a)),
+        G::Triangle(a, b, c) if a == b && b == c => add(acc, &G::Point(*a)),
         G::Line(a, b) => add_linestring(acc, &[*a, *b]),
         G::LineString(v) => add_linestring(acc, v),
         G::MultiLineString(v) => v.iter().for_each(|l| add_linestring(acc, l)),
@@ -169,8 +174,37 @@ fn degenerate_strategy() -> impl Strategy<Value = G> {
     ]
 }
 
+/// degenerate and ordinary members inside a MultiPolygon / MultiLineString (flat members of different vertex
+/// counts side by side, with or without a member of real area / length)
+fn multi_degenerate_strategy() -> impl Strategy<Value = G> {
+    let poly_of = |g: G| -> Vec<Poly> {
+        match g {
+            G::Polygon(p) => vec![p],
+            G::MultiPolygon(v) => v,
+            G::Rect(a, b) => vec![Poly::new(rect_ring(a, b), vec![])],
+            G::Triangle(a, b, c) => vec![Poly::new(tri_ring(a, b, c), vec![])],
+            _ => vec![],
+        }
+    };
+    let line_of = |g: G| -> Vec<Vec<C>> {
+        match g {
+            G::Line(a, b) => vec![vec![a, b]],
+            G::LineString(v) => vec![v],
+            G::MultiLineString(v) => v,
+            G::Polygon(p) => vec![p.ext],
+            _ => vec![],
+        }
+    };
+    prop_oneof![
+        proptest::collection::vec(prop_oneof![3 => degenerate_strategy(), 1 => geom_strategy()], 1..5)
+            .prop_map(move |v| G::MultiPolygon(v.into_iter().flat_map(poly_of).collect())),
+        proptest::collection::vec(prop_oneof![3 => degenerate_strategy(), 1 => geom_strategy()], 1..5)
+            .prop_map(move |v| G::MultiLineString(v.into_iter().flat_map(line_of).collect())),
+    ]
+}
+
 fn member_strategy() -> impl Strategy<Value = G> {
-    prop_oneof![5 => geom_strategy(), 2 => degenerate_strategy()]
+    prop_oneof![5 => geom_strategy(), 2 => degenerate_strategy(), 1 => multi_degenerate_strategy()]
 }
 
 impl Property for C06 {
